@@ -207,6 +207,13 @@ def cases(draw):
     # module aliases / names first, then qualified function names, repaired together
     mods = idents.repair(mod_raw)
     aliases = [m if draw(st.booleans()) else idents.repair([draw(idents.names(1))[0] + "m"])[0] for m in mods]
+    seen = set()
+    for i, a in enumerate(aliases):
+        # two imports under one alias would shadow each other (that is a different program, not a label question)
+        while a in seen or (a != mods[i] and a in mods):
+            a += "x"
+        seen.add(a)
+        aliases[i] = a
     qual = []
     owner = []
     for i, f in enumerate(fn_raw):
